@@ -23,7 +23,8 @@ META = {
 }
 
 USES = [
-    "mov #s3, r0", "mov s2(r1), r2", "mov @#s1, r0", "clr s3", ".word s3, s1", ".byte s0", "U: bne U+s0+s0", "mov s1, s2",
+    "mov #s3, r0", "mov s2(r1), r2", "mov @#s1, r0", "clr s3", ".word s3, s1", ".byte s0, 0", "U: bne U+s0+s0", "mov s1, s2",
+    ".word 2*s1*s0", "mov #-s0*s1, r0", ".word 100. - s2, s1 + s1 - s3", "1$: inc r0\nbne 1$", "2$: sob r1, 2$",
 ]
 
 FAMILIES = {
@@ -32,6 +33,8 @@ FAMILIES = {
     "indep": ["s0 = {A}", "s1 = {C}", "s2 = 5", "s3 = 177"],
     "nonlin": ["s0 = {A}", "s1 = s0 / 3", "s2 = s1 % 7 + {C}", "s3 = s2 * s1"],
     "label": ["s0 = {A}", "s1 = LB + s0", "s2 = LE - LB", "s3 = s2 * {C} + s0"],
+    "prod": ["s0 = {A}", "s1 = {C}", "s2 = 2 * s0 * s1", "s3 = (s0 - s1) * s1 - s0 * s1"],
+    "poly": ["s0 = {A}", "s1 = s0 + 5", "s2 = 100. - s1", "s3 = 3 * s2 - s1 - s1"],
 }
 
 
@@ -114,7 +117,8 @@ def obligations(tier, seed):
             combos = combos[:10] + [(tuple(reversed(range(len(defs)))), "after"), (tuple(range(len(defs))), "after")]
             combos = list(dict.fromkeys(combos))
         for k, (p, pl) in enumerate(combos):
-            uses = USES if tier == "thorough" else [USES[(k + j) % len(USES)] for j in range(4)]
+            uses = USES if tier == "thorough" else [USES[(k + j * 3) % len(USES)] for j in range(5)] + ["1$: inc r0\nbne 1$"]
+            uses = [line for u in dict.fromkeys(uses) for line in u.split("\n")]
             link = True
             canonical = program(defs, uses, "before", link)
             variant = program([defs[i] for i in p], uses, pl, link)
@@ -129,6 +133,14 @@ def obligations(tier, seed):
         can = "\n".join([".link lb"] + defs + uses) + "\n"
         var = "\n".join(([".link lb"] + uses + list(reversed(defs))) if pl == "after" else ([defs[2], ".link lb", uses[0], defs[1]] + uses[1:] + [defs[0]])) + "\n"
         obs.append(_ob(f"count-and-base/{pl}", can, var, ["A", "B"], ranges={"A": [-1, 6]}))
+    # products / differences of symbols that are themselves still pending when first used
+    pend = ["q0 = {A}", "s0 = q0 + 1", "s1 = q0 + {C}", "c0 = 2 * s0 * s1", "c1 = (s0 - s1) * s1", "c2 = -s0 * s1 + 100. - s1", "c3 = (s0 << 1) * s1"]
+    use = [".dword c0, c1, c2", "X3 = c3"]
+    can = "\n".join(pend + use) + "\n"
+    for oname, text in (("reverse", use + list(reversed(pend))), ("use-first-deps-last", use + pend[3:] + pend[1:3] + pend[:1]),
+                        ("mixed", pend[1:3] + use + pend[:1] + pend[3:]), ("deps-last", pend[3:] + use + pend[1:3] + pend[:1])):
+        obs.append(_ob(f"pending-products/{oname}", can, "\n".join(text) + "\n", ["A", "C"], ranges={"A": [-1000, 1000], "C": [-1000, 1000]},
+                       expect=None))
     # long chains
     for n, kind in ((8, "add"), (20, "add"), (6, "nonlin")):
         defs = chain_defs(n, kind)
